@@ -18,6 +18,7 @@ TRUSTED = ["numpy dtype.fields / ascontiguousarray / item assignment"]
 ASSUMPTIONS = ["remove_fields is driven with a scalar or a list only", "no duplicate names inside a selection",
                "combine_fields([a]) returns a itself by design"]
 THOROUGH_ROUNDS = 8      # the thorough tier runs the generator over this many derived seeds
+CASE_TIMEOUT = 600
 REQUIRED = {"quick": {"C07.extract": 600, "C07.remove": 400, "C07.add": 300, "C07.reorder": 500, "C07.combine": 250,
                       "C07.copy": 250, "C07.split": 200, "C07.compare": 200},
             "thorough": {"C07.extract": 12000, "C07.remove": 8000, "C07.add": 6000, "C07.reorder": 10000,
